@@ -2,6 +2,7 @@ package main
 
 import (
 	"fmt"
+	"sort"
 	"go/ast"
 	"go/types"
 	"strings"
@@ -14,11 +15,22 @@ func (ex *Exec) specEnv(st *State, extra map[string]*Val) *SpecEnv {
 	for k, v := range extra {
 		names[k] = v
 	}
-	env := &SpecEnv{names: names, st: st, ex: ex, pkg: shortPkg(ex.fi.Pkg.PkgPath), w: ex.w}
+	env := &SpecEnv{names: names, st: st, ex: ex, pkg: shortPkg(ex.fi.Pkg.PkgPath), w: ex.w, heapOf: heapOfState(st)}
 	if ex.entry != nil {
-		env.old = &SpecEnv{names: map[string]*Val{}, st: ex.entry, ex: ex, pkg: env.pkg, w: ex.w}
+		env.old = &SpecEnv{names: map[string]*Val{}, st: ex.entry, ex: ex, pkg: env.pkg, w: ex.w, heapOf: heapOfState(ex.entry)}
 	}
 	return env
+}
+
+func heapOfState(st *State) func(*Term) *Term {
+	return func(g *Term) *Term {
+		if st != nil {
+			if v, ok := st.ghost["H:"+g.Op]; ok {
+				return v.T
+			}
+		}
+		return g
+	}
 }
 
 func (ex *Exec) specVal(st *State, e *SExpr, extra map[string]*Val) *Val {
@@ -60,7 +72,7 @@ func (w *World) lemmaInstance(use *SExpr, env *SpecEnv) *Term {
 		v := w.trSpec(use.Args[i+1], env)
 		names[p.Name] = tv(coerceTo(v, ps), gt)
 	}
-	lenv := &SpecEnv{names: names, pkg: lm.Pkg, w: w}
+	lenv := &SpecEnv{names: names, pkg: lm.Pkg, w: w, heapOf: env.heapOf}
 	var req, ens []*Term
 	for _, c := range lm.Requires {
 		req = append(req, w.trSpec(c.E, lenv).T)
@@ -115,7 +127,7 @@ func (w *World) verifyFunc(fi *FuncInfo, fc *FuncContract) (ex *Exec, err error)
 	// text (and hence solver behaviour) does not depend on which other functions are in the run
 	w.fresh = 0
 	bvCounter = 100000
-	ex = &Exec{w: w, fi: fi, fc: fc, info: fi.Pkg.TypesInfo, arith: "exact", assumedCalls: map[string]bool{}}
+	ex = &Exec{w: w, fi: fi, fc: fc, info: fi.Pkg.TypesInfo, arith: "exact", assumedCalls: map[string]bool{}, heapTouched: map[string]*Term{}, heapMayWrite: map[string]*Term{}}
 	if fc.Arith != "" {
 		ex.arith = fc.Arith
 	}
@@ -137,6 +149,8 @@ func (w *World) verifyFunc(fi *FuncInfo, fc *FuncContract) (ex *Exec, err error)
 		return ex, fmt.Errorf("no body")
 	}
 	st := &State{vars: map[types.Object]*Val{}, guard: tTrue, ghost: map[string]*Val{}}
+	ex.collectHeapWrites(fi.Decl.Body)
+	ex.allocates = bodyAllocates(ex, fi.Decl.Body)
 	bind := func(v *types.Var, name string) {
 		s := w.sortOf(v.Type())
 		var val *Val
@@ -163,6 +177,9 @@ func (w *World) verifyFunc(fi *FuncInfo, fc *FuncContract) (ex *Exec, err error)
 			}
 			if isIntType(v.Type()) {
 				ex.assume(st, ex.intRange(c, v.Type()))
+			}
+			if ex.allocates && s.Eq(SRef) && !isIntType(v.Type()) {
+				ex.assume(st, tOr(tEq(c, intLit(0)), ex.isAlloc(st, c)))
 			}
 			ex.inputs = append(ex.inputs, ModelVar{Name: name, Term: c, GoT: v.Type()})
 			// pointer to scalar: ghost cell
@@ -332,6 +349,35 @@ func (ex *Exec) execReturn(st *State, s *ast.ReturnStmt) {
 			o.Props = c.Props
 		}
 	}
+	// frame: heap fields not listed in `modifies` are unchanged on every pre-existing object
+	{
+		var keys []string
+		for k := range ex.heapTouched {
+			keys = append(keys, k)
+		}
+		sort.Strings(keys)
+		alloc0 := ex.allocTerm(ex.entry)
+		for _, k := range keys {
+			g := ex.heapTouched[k]
+			cur, ok := st.ghost["H:"+k]
+			if !ok || cur.T == g {
+				continue
+			}
+			listed := false
+			for _, m := range ex.fc.Modifies {
+				if mg := ex.w.heapByName(m); mg != nil && mg.Op == k {
+					listed = true
+				}
+			}
+			if listed {
+				continue
+			}
+			bvCounter++
+			r := cnst(fmt.Sprintf("r$%d", bvCounter), SRef)
+			goal := &Term{Op: "forall", BVars: []*Term{r}, S: SBool, Args: []*Term{tImp(tSelect(alloc0, r), tEq(tSelect(cur.T, r), tSelect(g, r)))}}
+			ex.oblige(st, "frame", fmt.Sprintf("frame.ret%d.%s", rn, strings.TrimPrefix(k, "H_")), goal, where+": heap field "+strings.TrimPrefix(k, "H_")+" of pre-existing objects is unchanged (not in modifies)")
+		}
+	}
 	if ip := ex.fc.Iter; ip != nil {
 		env := ex.specEnv(st, extra)
 		seen := st.ghost["seen"].T
@@ -435,8 +481,15 @@ func (ex *Exec) receiverValue(st *State, f *ast.SelectorExpr, sel *types.Selecti
 		ex.nonNil(st, base.T, ex.pos(f))
 		return base
 	}
+	if ex.w.isRefStruct(bt) {
+		// object value: its reference serves as receiver either way
+		if wantPtr {
+			return tv(base.T, types.NewPointer(bt))
+		}
+		return base
+	}
 	if wantPtr && !havePtr {
-		// &x for addressable local
+		// &x for addressable local value struct
 		if id, ok := f.X.(*ast.Ident); ok && len(path) == 1 {
 			obj := ex.info.ObjectOf(id)
 			return &Val{Loc: obj, T: intLit(1), GoT: types.NewPointer(obj.Type()), Mag: -1}
@@ -449,8 +502,11 @@ func (ex *Exec) receiverValue(st *State, f *ast.SelectorExpr, sel *types.Selecti
 			return ex.lookupVar(st, base.Loc)
 		}
 		ex.nonNil(st, base.T, ex.pos(f))
-		named := bt.Underlying().(*types.Pointer).Elem().(*types.Named)
-		return ex.loadStruct(base.T, named)
+		named := namedOf(bt.Underlying().(*types.Pointer).Elem())
+		if ex.w.isRefStruct(named) {
+			return tv(base.T, named)
+		}
+		return ex.loadDT(st, base.T, named)
 	}
 	return base
 }
@@ -528,7 +584,7 @@ func (ex *Exec) evalBuiltin(st *State, name string, e *ast.CallExpr) *Val {
 	case "new":
 		t := ex.info.TypeOf(e.Args[0])
 		if isStructNamed(t) {
-			return ex.allocStruct(st, tv(ex.zeroTerm(t), t))
+			return tv(ex.allocObj(st, namedOf(t)), types.NewPointer(t))
 		}
 	case "min", "max":
 		a := ex.eval(st, e.Args[0])
@@ -687,7 +743,19 @@ func (ex *Exec) applyContract(st *State, cfi *FuncInfo, cfc *FuncContract, recv 
 		}
 	}
 	calleePkg := shortPkg(cfi.Pkg.PkgPath)
-	env := &SpecEnv{names: names, pkg: calleePkg, w: ex.w}
+	preHeap := map[string]*Val{}
+	for k, v := range st.ghost {
+		if strings.HasPrefix(k, "H:") {
+			preHeap[k] = v
+		}
+	}
+	preHeapOf := func(g *Term) *Term {
+		if v, ok := preHeap["H:"+g.Op]; ok {
+			return v.T
+		}
+		return g
+	}
+	env := &SpecEnv{names: names, pkg: calleePkg, w: ex.w, heapOf: preHeapOf}
 	if cfc.Iter != nil {
 		// ghost protocol state is visible to callee contract
 		if closure != nil && closure.FnObj != nil && ex.iterState {
@@ -747,6 +815,24 @@ func (ex *Exec) applyContract(st *State, cfi *FuncInfo, cfc *FuncContract, recv 
 			}
 		}
 	}
+	// heap fields the callee may modify become unknown; allocation only grows
+	for _, m := range cfc.Modifies {
+		g := ex.w.heapByName(m)
+		if g == nil {
+			panic("modifies: unknown heap field " + m + " in contract of " + cfi.Key)
+		}
+		st.ghost["H:"+g.Op] = tv(ex.fresh("heap_"+strings.TrimPrefix(g.Op, "H_"), g.S), nil)
+		ex.heapTouched[g.Op] = g
+	}
+	if ex.allocates || len(cfc.Modifies) > 0 {
+		old := ex.allocTerm(st)
+		na := ex.fresh("alloc", old.S)
+		bvCounter++
+		rr := cnst(fmt.Sprintf("r$%d", bvCounter), SRef)
+		st.ghost["H:$alloc"] = tv(na, nil)
+		ex.assume(st, &Term{Op: "forall", BVars: []*Term{rr}, S: SBool, Args: []*Term{tImp(tSelect(old, rr), tSelect(na, rr))}})
+		post["$oldalloc"] = tv(old, nil)
+	}
 	var gbv []*Term
 	for _, g := range cfc.Ghosts {
 		gs, gt := ex.w.resolveSpecType(calleePkg, g.Type)
@@ -755,7 +841,13 @@ func (ex *Exec) applyContract(st *State, cfi *FuncInfo, cfc *FuncContract, recv 
 		gbv = append(gbv, c)
 		post[g.Name] = tv(c, gt)
 	}
-	penv := &SpecEnv{names: post, pkg: calleePkg, w: ex.w, old: &SpecEnv{names: mergeNames(names, oldNames), pkg: calleePkg, w: ex.w}}
+	penv := &SpecEnv{names: post, pkg: calleePkg, w: ex.w, heapOf: heapOfState(st), old: &SpecEnv{names: mergeNames(names, oldNames), pkg: calleePkg, w: ex.w, heapOf: preHeapOf}}
+	// pointer / object results of an allocating callee are fresh or pre-existing objects
+	for _, rv := range rvals {
+		if rv.T.S.Eq(SRef) && !isIntType(rv.GoT) && (ex.allocates || len(cfc.Modifies) > 0) {
+			ex.assume(st, tOr(tEq(rv.T, intLit(0)), ex.isAlloc(st, rv.T)))
+		}
+	}
 	for _, c := range cfc.Ensures {
 		t := ex.w.trSpec(c.E, penv).T
 		if len(gbv) > 0 && mentionsAny(t, gbv) {
@@ -865,7 +957,7 @@ func (ex *Exec) callForwardIter(st *State, cn int, cfi *FuncInfo, cfc *FuncContr
 			post["result"] = v
 		}
 	}
-	penv := &SpecEnv{names: post, pkg: env.pkg, w: ex.w, old: env}
+	penv := &SpecEnv{names: post, pkg: env.pkg, w: ex.w, old: env, heapOf: env.heapOf}
 	for _, c := range cfc.Ensures {
 		ex.assume(st, ex.w.trSpec(c.E, penv).T)
 	}
@@ -1013,7 +1105,7 @@ func (ex *Exec) callWithClosure(st *State, cn int, cfi *FuncInfo, cfc *FuncContr
 			post["result"] = v
 		}
 	}
-	penv := &SpecEnv{names: post, pkg: env.pkg, w: ex.w, old: env}
+	penv := &SpecEnv{names: post, pkg: env.pkg, w: ex.w, old: env, heapOf: env.heapOf}
 	for _, c := range cfc.Ensures {
 		ex.assume(st, ex.w.trSpec(c.E, penv).T)
 	}
